@@ -324,7 +324,7 @@ def coq_assumptions(prop):
         if "Closed under the global context" in body:
             res[t] = []
         else:
-            ax = re.findall(r"^([A-Za-z0-9_.']+)\s*:", body, re.M)
+            ax = [a for a in re.findall(r"^([A-Za-z0-9_.']+)\s*:", body, re.M) if a != "Axioms"]   # "Axioms:" is the header line
             res[t] = ax or ["<unparsed>"]
     return thms, res
 
